@@ -127,8 +127,15 @@ def run(case):
                     extra=dict(line_schedules_explored=nexec, line_scheduling_points=npts, distinct_thread_outcomes=[str(o) for o in outcomes]))
     if mode in ('batch', 'chunks', 'single'):
         if mode == 'batch':
-            mn, md, mj = chc._unpack_euler16(codes.copy())
+            arr = codes.copy()
+            mn, md, mj = chc._unpack_euler16(arr)
             sel = codes
+            # the raw column belongs to the caller: it must not be changed, and decoding the same array again gives the same triads
+            if not np.array_equal(arr, codes):
+                probs.append(dict(sig='euler16:input-modified', msg=f'_unpack_euler16 changed its input array ({int((arr != codes).sum())} of {NCODE} codes)'))
+            mn2, md2, mj2 = chc._unpack_euler16(arr)
+            if not (np.array_equal(mn2, mn) and np.array_equal(md2, md) and np.array_equal(mj2, mj)):
+                probs.append(dict(sig='euler16:second-decode-differs', msg='decoding the same array object a second time gives different triads'))
         elif mode == 'chunks':
             parts = [chc._unpack_euler16(codes[i::121].copy()) for i in range(121)]
             mn = np.empty((NCODE, 3)); md = np.empty((NCODE, 3)); mj = np.empty((NCODE, 3))
